@@ -321,8 +321,8 @@ def plan(tier):
                         space=component_trees(LEAVES, 2, [3, 1]),
                         note="depth<=2, fan-out (3,1), full alphabet"))
         out.append(dict(kind="space", name="component-trees-deep", fn=fn_tree,
-                        space=component_trees(RED_LEAVES, 3, [2, 2, 1]),
-                        note="depth<=3, fan-out (2,2,1), reduced leaves"))
+                        space=component_trees(RED_LEAVES, 3, [2, 1, 2]),
+                        note="depth<=3, fan-out (2,1,2), reduced leaves"))
     out.append(dict(kind="space", name="props", fn=fn_props,
                     space=Prod(pv, pv, Const(["ctor", "append", "extend", "append-all"])),
                     note=f"all ordered pairs of (raw name, value) over {len(PROP_NAMES)} names x "
